@@ -92,7 +92,7 @@ def run(ctx):
         return
     n = tier_n(ctx, 12, 200)
     rng = ctx.rng("e2e/interop")
-    scen = [e2e_c07.fam_interop(rng, i) for i in range(n)]
+    scen = [e2e_c07.fam_interop(rng, i) for i in range(n)] + e2e_c07.fixed_scenarios()
     traces = e2e_c07.run_many(scen)
     per_role = {}
     fails = []
@@ -126,7 +126,7 @@ def run(ctx):
     if okc:
         # per trace: every handshake-space payload, every small 1-RTT payload (control frames) and an evenly spaced
         # sample of the bulk (STREAM-carrying) 1-RTT payloads
-        n_small, n_big = tier_n(ctx, 300, 3000), tier_n(ctx, 60, 1500)
+        n_small, n_big = tier_n(ctx, 300, 400), tier_n(ctx, 60, 120)
         sel = []
         for ti, tr in enumerate(traces):
             recs = [r for r in tr.recs if r.kind in ("rxp", "txp")]
